@@ -114,7 +114,7 @@ def treeReport (sp : Space) (k : Nat) (treeS : String) (raw : List (List Nat)) :
     | some (top, []) =>
       let wf := wfTree sp.dist sp.N top
       let leafScale := firstLeafScale top
-      match batchQuery sp.dist (k + 1) leafScale top with
+      match batchQuery sp.dist id (k + 1) leafScale top with
       | none => s!"wf={b2s wf} mq=fuel"
       | some res =>
         let sameSets := res.length == raw.length && (res.zip raw).all fun (a, b) =>
